@@ -87,6 +87,16 @@ def build(S, tier):
         s = I.path.fresh("s", "int")
         I.path.assume(s.t >= 0)
         mc.attrs["step_count"] = s
+        # whatever an earlier irun / run call left in the attributes it writes (start of that run, its limit, flags) must
+        # not matter: the schedule is a function of the current step count and the intervals
+        import ast as _ast
+        irun = I.get_function(DRV + ".irun")
+        for n_ in _ast.walk(irun.node):
+            if isinstance(n_, (_ast.Assign, _ast.AugAssign, _ast.AnnAssign)):
+                for t_ in (n_.targets if isinstance(n_, _ast.Assign) else [n_.target]):
+                    if isinstance(t_, _ast.Attribute) and isinstance(t_.value, _ast.Name) and t_.value.id == "self" and t_.attr != "step_count" and t_.attr in mc.attrs:
+                        cur = mc.attrs[t_.attr]
+                        mc.attrs[t_.attr] = I.path.fresh("left_by_an_earlier_run_" + t_.attr, "bool" if isinstance(cur, bool) else "int")
         log, ref = [], [mc]
         ivs = []
         for j in range(3):
